@@ -93,12 +93,28 @@ class Ctx:
         self.mask = set()               # rel paths never observed (cache-only directories)
         self.rets = []                  # (t, key, value) of every successful complex call
         self.tls = threading.local()
+        self.marks = []                 # ('fret'|'done', where, clock)
+        self.stash = {}                 # name -> builder instance kept beyond its function (C17)
+        self.stragglers = []
         self.outcomes = {}              # key -> None (ok) | exception object
         self.fault_call = None
         self.npoints = 0
 
     def ap(self, r):
         return os.path.join(self.sb, r) if r else self.sb
+
+    def clock(self):
+        c = self.hooks.get('clock')
+        if c is not None:
+            return c()
+        with self.lock:
+            self._clk = getattr(self, '_clk', 0) + 1
+            return self._clk
+
+    def mark(self, what, where):
+        t = self.clock()
+        with self.lock:
+            self.marks.append((what, where, t))
 
     def push_call(self, key):
         st = getattr(self.tls, 'stack', None)
@@ -445,7 +461,10 @@ def call_bf(ctx, fr, s):
         ctx.point('enter:' + fname)
         acc = H('bf', fname, ctx.rel(filename), canon_str(list(args)), canon_str(kwargs),
                 version_class(ctx, fname))
-        acc = run_body(ctx, fr2, fdef['body'], acc)
+        try:
+            acc = run_body(ctx, fr2, fdef['body'], acc)
+        finally:
+            ctx.mark('fret', fr2.where)
         ctx.point('exit:' + fname)
         return final_ret(fr2, acc, [acc])
 
@@ -459,6 +478,7 @@ def call_bf(ctx, fr, s):
         else:
             ret = fr.b.build_file(pth, fname, fn, *sent_args, **sent_kwargs)
     except Exception as e:
+        ctx.mark('done', ckey)
         ctx.pop_call(ckey, e)
         note_exception(ctx, e)
         if ctx.real:
@@ -466,6 +486,7 @@ def call_bf(ctx, fr, s):
         if not o.get('catch') or isinstance(e, Crash):
             raise
         return ['exc', errname(e)]
+    ctx.mark('done', ckey)
     ctx.pop_call(ckey, None)
     if ctx.real:
         peek_after_bf(ctx, target_abs, True, None)
@@ -524,7 +545,10 @@ def call_sb(ctx, fr, s):
         fr2.args, fr2.kwargs = list(args), kwargs
         ctx.point('enter:' + fname)
         acc = H('sb', fname, canon_str(list(args)), canon_str(kwargs), version_class(ctx, fname))
-        acc = run_body(ctx, fr2, fdef['body'], acc)
+        try:
+            acc = run_body(ctx, fr2, fdef['body'], acc)
+        finally:
+            ctx.mark('fret', fr2.where)
         ctx.point('exit:' + fname)
         return final_ret(fr2, acc, {'v': acc})
 
@@ -536,11 +560,13 @@ def call_sb(ctx, fr, s):
     try:
         ret = fr.b.subbuild(fname, fn, *sent_args, **sent_kwargs)
     except Exception as e:
+        ctx.mark('done', ckey)
         ctx.pop_call(ckey, e)
         note_exception(ctx, e)
         if not o.get('catch') or isinstance(e, Crash):
             raise
         return ['exc', errname(e)]
+    ctx.mark('done', ckey)
     ctx.pop_call(ckey, None)
     with ctx.lock:
         try:
@@ -559,7 +585,10 @@ def make_root(ctx, body):
     def root(b):
         fr = Frame(b, '<root>', None, '')
         ctx.point('enter:root')
-        acc = run_body(ctx, fr, body, 'root')
+        try:
+            acc = run_body(ctx, fr, body, 'root')
+        finally:
+            ctx.mark('fret', '')
         ctx.point('exit:root')
         return {'root': acc}
     return root
